@@ -61,4 +61,33 @@ func TestC16_Regress_KnownFindings(t *testing.T) {
 		}
 		stats.Case(part, "decoder-ignores-node-location/"+c.name, true, "decoder_without_location")
 	}
+	// fixed: C16/internal-external/*(non-20-byte input): a 21-byte wire field whose first byte is
+	// the node's prefix and whose last 20 bytes are a foreign address (and the converse) is
+	// classified by the 20 bytes the address holds.
+	{
+		loc := common.Location{0, 0}
+		foreignQi := make([]byte, 20)
+		foreignQi[0], foreignQi[1], foreignQi[19] = 0x01, 0x80, 0x77
+		own := make([]byte, 20)
+		own[19] = 0x42
+		for _, c := range []struct {
+			name string
+			raw  []byte
+			b    []byte
+		}{{"own-prefix+foreign", append([]byte{0x00}, foreignQi...), foreignQi}, {"foreign-prefix+own", append([]byte{0x11}, own...), own}, {"short", []byte{0x01, 0x02}, append(make([]byte, 18), 0x01, 0x02)}} {
+			var viaProto common.Address
+			if err := viaProto.ProtoDecode(&common.ProtoAddress{Value: c.raw}, loc); err != nil {
+				t.Fatalf("HARNESS: %v", err)
+			}
+			for _, d := range []struct {
+				path string
+				a    common.Address
+			}{{"BytesToAddress", common.BytesToAddress(c.raw, loc)}, {"ProtoDecode", viaProto}, {"HexToAddress", common.HexToAddress(fmt.Sprintf("0x%x", c.raw), loc)}} {
+				checkAddr(func(f, msg string) {
+					stats.Violation(t, part, f+"/len=regress", msg, map[string]any{"location": "[0 0]", "input": fmt.Sprintf("%x", c.raw)})
+				}, d.path+"(non-20-byte input)", d.a, c.b, loc)
+			}
+			stats.Case(part, "non-20-byte-input/"+c.name, true, "fixed_regression")
+		}
+	}
 }
